@@ -1876,6 +1876,151 @@ def run_dce(case):
         return out
     return apply_twice(r, transform('do_remove_dead_code', simplify=bool(case['simplify'])), out, lambda rt: M.from_loki(rt.body.body))
 
+# =============================================================================================== dead code with SELECT CASE
+def _flatk(nodes):
+    out = []
+    for n in nodes or ():
+        if isinstance(n, (tuple, list)): out += _flatk(n)
+        else: out.append(n)
+    return out
+
+def k_fstmts(ss, ind=2):
+    """printer for statements with ['select', selector, [[values]..], [[body]..], default]; IF / ELSE IF as the C32 printer"""
+    out, pad = [], ' ' * ind
+    for s in ss:
+        k = s[0]
+        if k == 'select':
+            out.append('%sselect case (%s)' % (pad, D.fx(s[1])))
+            for vals, body in zip(s[2], s[3]):
+                out.append('%scase (%s)' % (pad, ', '.join(D.fx(v) for v in vals))); out += k_fstmts(body, ind + 2)
+            if s[4]: out.append(pad + 'case default'); out += k_fstmts(s[4], ind + 2)
+            out.append(pad + 'end select')
+        elif k == 'if':
+            out.append('%sif (%s) then' % (pad, D.fx(s[1]))); out += k_fstmts(s[2], ind + 2)
+            e = s[3]
+            while len(e) == 1 and e[0][0] == 'if':
+                out.append('%selse if (%s) then' % (pad, D.fx(e[0][1]))); out += k_fstmts(e[0][2], ind + 2)
+                e = e[0][3]
+            if e: out.append(pad + 'else'); out += k_fstmts(e, ind + 2)
+            out.append(pad + 'end if')
+        elif k == 'do':
+            hdr = '%sdo %s = %s, %s' % (pad, s[1], D.fx(s[2]), D.fx(s[3]))
+            if s[4] is not None: hdr += ', %s' % D.fx(s[4])
+            out.append(hdr); out += k_fstmts(s[5], ind + 2); out.append(pad + 'end do')
+        elif k == 'while':
+            out.append('%sdo while (%s)' % (pad, D.fx(s[1]))); out += k_fstmts(s[2], ind + 2); out.append(pad + 'end do')
+        else:
+            out += D.fstmts([s], ind)
+    return out
+
+def k_src(body):
+    lines = D.cp_unit_src([]).split('\n')
+    return '\n'.join(lines[:-1] + k_fstmts(body) + lines[-1:])
+
+def k_from_loki(nodes):
+    from loki import ir
+    out = []
+    for n in _flatk(nodes):
+        if isinstance(n, (ir.Comment, ir.CommentBlock, ir.Pragma)): continue
+        if isinstance(n, ir.Section): out += k_from_loki(n.body)
+        elif isinstance(n, ir.MultiConditional):
+            out.append(['select', B.structure(n.expr), [[B.structure(v) for v in vs] for vs in n.values],
+                        [k_from_loki(b) for b in n.bodies], k_from_loki(n.else_body or ())])
+        elif isinstance(n, ir.Loop):
+            b = n.bounds
+            out.append(['do', n.variable.name.lower(), B.structure(b.start), B.structure(b.stop),
+                        None if b.step is None else B.structure(b.step), k_from_loki(n.body)])
+        elif isinstance(n, ir.WhileLoop): out.append(['while', B.structure(n.condition), k_from_loki(n.body)])
+        elif isinstance(n, ir.Conditional):
+            out.append(['if', B.structure(n.condition), k_from_loki(n.body), k_from_loki(n.else_body or ())])
+        else: out += M.from_loki((n,))
+    return out
+
+def kstmt_model(s):
+    E = B.model_of_structure
+    k = s[0]
+    if k == 'select':
+        return C('KSel', E(s[1]), [[E(v) for v in vs] for vs in s[2]], [[kstmt_model(x) for x in b] for b in s[3]], [kstmt_model(x) for x in s[4]])
+    if k == 'if': return C('KIf', E(s[1]), [kstmt_model(x) for x in s[2]], [kstmt_model(x) for x in s[3]])
+    if k == 'do': return C('KDo', s[1], E(s[2]), E(s[3]), None if s[4] is None else Some(E(s[4])), [kstmt_model(x) for x in s[5]])
+    if k == 'while': return C('KWhile', E(s[1]), [kstmt_model(x) for x in s[2]])
+    return C('KS', M.stmt_model(s))
+def kstmts_model(ss): return [kstmt_model(s) for s in ss]
+
+def gen_select_body(rng):
+    """SELECT CASE on literal selectors (matching a case value / matching none / literal expression) and on run-time
+    selectors; the bodies contain literal-condition IFs and nested constant SELECT CASEs; every case body ends with a
+    plain assignment (a body that becomes empty makes Transformer.visit_tuple drop it: outside the modelled class)"""
+    g = D.Gen(rng, dovar_outside=False)
+    def assign(): return ['assign', rng.choice(D.LOCALS), g.expr() if rng.random() < 0.5 else g.lit()]
+    def cond():
+        r = rng.random()
+        if r < 0.35: return ['log', rng.random() < 0.5]
+        if r < 0.6: return D.cmp(rng.choice(['<', '<=', '>', '>=', '==', '!=']), g.lit(), g.lit())
+        if r < 0.9: return D.cmp(rng.choice(['<', '<=', '>', '>=', '==', '!=']), D.V(rng.choice(['n', 'm', 'x'])), g.lit())
+        return g.cond()
+    def select(d):
+        ncase = rng.randint(1, 3)
+        pool = list(range(1, 10)); rng.shuffle(pool)
+        vals = []
+        for _ in range(ncase):
+            vals.append([D.I(pool.pop()) for _ in range(rng.choice([1, 1, 2]))])
+        flat = [v[1] for vs in vals for v in vs]
+        r = rng.random()
+        if r < 0.5: sel = D.I(rng.choice(flat))                                   # matches a case value
+        elif r < 0.67: sel = D.I(rng.choice([0, 11, 12]))                         # constant, no match: the construct stays
+        elif r < 0.94: sel = D.V(rng.choice(['n', 'm']))                          # run-time selector
+        elif r < 0.97:                                                             # literal expression equal to a case value
+            v = rng.choice(flat); a = rng.randint(0, v); sel = D.add(D.I(a), D.I(v - a))
+        else:                                                                      # the same variable as selector and case value
+            sel = D.V('m'); vals[rng.randrange(ncase)].append(D.V('m'))
+        bodies = [stmts(d, rng.randint(0, 2)) + [assign()] for _ in range(ncase)]
+        dflt = (stmts(d, rng.randint(0, 1)) + [assign()]) if rng.random() < 0.6 else []
+        return ['select', sel, vals, bodies, dflt]
+    def stmts(d, n):
+        out = []
+        for _ in range(n):
+            r = rng.random()
+            if d > 0 and r < 0.4: out.append(select(d - 1))
+            elif d > 0 and r < 0.75:
+                e = stmts(d - 1, rng.randint(0, 2))
+                out.append(['if', cond(), stmts(d - 1, rng.randint(1, 2)), e])
+            elif d > 0 and r < 0.82:
+                out.append(['do', 'i', D.I(1), D.V('n'), None, stmts(d - 1, rng.randint(1, 2))])
+            else: out.append(assign())
+        return out
+    body = stmts(2, rng.randint(0, 2)) + [select(2)] + stmts(2, rng.randint(0, 1))
+    return body
+
+def run_kdce(case):
+    r = parse(k_src(case['body']))
+    out = {'p0': k_from_loki(r.body.body)}
+    if out['p0'] != case['body']:
+        out['skip'] = 'frontend round trip differs'
+        return out
+    return apply_twice(r, transform('do_remove_dead_code', simplify=bool(case['simplify'])), out, lambda rt: k_from_loki(rt.body.body))
+
+def _ksel(sel, vals, bodies, dflt): return ['select', sel, vals, bodies, dflt]
+# the two scenarios of seeded/C40/demo.py in the integer fragment, plus a default-branch and a run-time variant
+DCE_SELECT_HAND = [
+    {'kind': 'dce-select', 'simplify': True, 'body': [['if', ['cmp', '>', ['var', 'n'], ['int', 0]],
+        [_ksel(['int', 2], [[['int', 1]], [['int', 5], ['int', 2]]],
+               [[['assign', 'x', ['int', 1]]],
+                [['if', ['cmp', '==', ['int', 1], ['int', 2]], [['assign', 'y', ['int', 2]]], [['assign', 'y', ['int', 4]]]], ['assign', 'x', ['int', 7]]]],
+               [['assign', 'x', ['int', 3]]])], []]]},
+    {'kind': 'dce-select', 'simplify': True, 'body': [
+        _ksel(['int', 3], [[['int', 3]]],
+              [[_ksel(['int', 7], [[['int', 1]], [['int', 7]]], [[['assign', 'x', ['int', 1]]], [['assign', 'x', ['int', 2]]]], [['assign', 'x', ['int', 3]]]),
+                ['assign', 'y', ['int', 5]]]], [])]},
+    {'kind': 'dce-select', 'simplify': False, 'body': [
+        _ksel(['int', 4], [[['int', 4]]], [[['if', ['log', False], [['assign', 'x', ['int', 1]]], []], ['assign', 'z', ['int', 2]]]], [['assign', 'z', ['int', 0]]])]},
+    {'kind': 'dce-select', 'simplify': True, 'body': [
+        _ksel(['var', 'n'], [[['int', 1]], [['int', 2]]],
+              [[['if', ['log', True], [['assign', 'x', ['int', 1]]], []], ['assign', 'y', ['int', 1]]],
+               [_ksel(['int', 5], [[['int', 5]]], [[['assign', 'x', ['int', 9]]]], []), ['assign', 'y', ['int', 2]]]],
+              [['if', ['cmp', '<', ['int', 2], ['int', 1]], [['assign', 'x', ['int', 0]]], []], ['assign', 'y', ['int', 3]]])]},
+]
+
 def assoc_depth(ss, d=0):
     m = d
     for s in ss:
@@ -1899,7 +2044,7 @@ class C40(Property):
     shard = 60
     rule = ('every listed normalising transformation is applied ONCE and TWICE to the same routine: generated programs (generators copied from '
             'the C29/C30/C32 harnesses: nested ASSOCIATE blocks, array-section assignments / WHERE, routines with assorted declared bounds, '
-            'nested IF / ELSE IF with decidable conditions; own generators: mixed-case routines with nested subscripts and intrinsic calls up to the '
+            'nested IF / ELSE IF with decidable conditions; own generators: SELECT CASE with constant (matching / non-matching) and run-time selectors whose bodies hold literal-condition IFs and nested constant SELECT CASEs, mixed-case routines with nested subscripts and intrinsic calls up to the '
             'depth limit and initialised locals, USE lists with used/unused symbols and blanket imports, calls passing array elements to array '
             'dummies, multi-symbol declarations) and every routine of the Fortran files under loki/ that the FP frontend accepts; oracle: fgen '
             'text and a structural IR dump after two applications equal those after one; tie: the Coq model reproduces Loki\'s output after the '
@@ -1908,6 +2053,7 @@ class C40(Property):
     modelled_not_verified = [
         'oracle only (no model): normalize_array_shape_and_access, do_merge_associates (tie through the C29 model, no idempotence theorem), every transformation on the repository Fortran files (case kinds file:<name>)',
         'do_remove_dead_code with use_simplify=True: the expression model of C32 (binary expressions over literals and atoms) is partial; idempotence is proved wherever that model is defined on its own output, and conds_stable is evaluated in Coq for every generated case; SimplifyMapper beyond that class is C08/C09',
+        'do_remove_dead_code on SELECT CASE: own source-level model kdce (integer-literal / variable selectors and case values, non-empty case bodies); case ranges, character/logical selectors and other selector expressions are oracle only; the use_simplify=True theorem is in validated form (kconds_stable evaluated per case)',
         'convert_to_lower_case: kind parameters, derived-type members, statement functions, string/print statements are outside the modelled fragment (names in expressions, DO variables, call names, declared dimensions and initial values are modelled)',
         'sanitise_imports: the set of used symbols is an input of the model (the harness checks that the real analysis returns the same set on both applications); contained members and module-level sanitising are not modelled',
         'do_resolve_sequence_association: positional arguments only, declared shapes known, no strided sections',
@@ -1964,6 +2110,12 @@ class C40(Property):
         for i in range(n):
             yield {'kind': 'dce', 'simplify': rng.random() < 0.7, 'body': D.gen_dce_body(rng)}
         for c in DCE_HAND: yield copy.deepcopy(c)
+        # --- dead code with SELECT CASE (visit_MultiConditional)
+        for c in DCE_SELECT_HAND: yield copy.deepcopy(c)
+        n = 120 if q else 400
+        for i in range(n):
+            sub = random.Random(rng.getrandbits(64))
+            yield {'kind': 'dce-select', 'simplify': sub.random() < 0.7, 'body': gen_select_body(sub)}
         # --- lower case
         n = 110 if q else 300
         for i in range(n):
@@ -1988,6 +2140,7 @@ class C40(Property):
         if k == 'explicit': return run_explicit(case)
         if k in ('normrange', 'normshape'): return run_index(case)
         if k == 'dce': return run_dce(case)
+        if k == 'dce-select': return run_kdce(case)
         if k == 'lower': return run_lower(case)
         if k == 'imports': return run_imports(case)
         if k == 'seqassoc': return run_seq(case)
@@ -2003,11 +2156,11 @@ class C40(Property):
             if '__exception__' in out: return idem_oracle(k, out)
             return idem_oracle('add_explicit_array_dimensions', out['add']) or idem_oracle('remove_explicit_array_dimensions', out['rem'])
         name = {'assoc': 'do_resolve_associates', 'merge': 'do_merge_associates', 'vector': 'resolve_vector_notation',
-                'dce': 'do_remove_dead_code', 'lower': 'convert_to_lower_case', 'imports': 'sanitise_imports',
+                'dce': 'do_remove_dead_code', 'dce-select': 'do_remove_dead_code', 'lower': 'convert_to_lower_case', 'imports': 'sanitise_imports',
                 'seqassoc': 'do_resolve_sequence_association', 'svd': 'single_variable_declaration'}.get(k)
         if name is None: name = case.get('T') or 'do_resolve_associates'
         if k.startswith('assoc-sd'): name = 'do_resolve_associates(start_depth=%d)' % case['sd']
-        if k == 'dce': name += '(use_simplify=%s)' % bool(case['simplify'])
+        if k in ('dce', 'dce-select'): name += '(use_simplify=%s)' % bool(case['simplify'])
         msg = idem_oracle(name, out)
         if not msg and k == 'imports' and len(out.get('used', [])) == 2 and out['used'][0] != out['used'][1]:
             msg = 'sanitise_imports: the set of used symbols changed between the two applications: %s vs %s' % (out['used'][0], out['used'][1])
@@ -2033,6 +2186,13 @@ class C40(Property):
                 return coq(C('chk40_dce', bool(case['simplify']), p, None, None))
             o2 = Some(M.stmts_model(out['o2'])) if 'o2' in out else None
             return coq(C('chk40_dce', bool(case['simplify']), p, Some(M.stmts_model(out['o1'])), o2))
+        if k == 'dce-select':
+            p = kstmts_model(out['p0'])
+            if 'err1' in out:
+                if out['err1'] != 'ValidationError': raise ValueError('do_remove_dead_code raised %s' % out['err1'])
+                return coq(C('chk40_kdce', bool(case['simplify']), p, None, None))
+            o2 = Some(kstmts_model(out['o2'])) if 'o2' in out else None
+            return coq(C('chk40_kdce', bool(case['simplify']), p, Some(kstmts_model(out['o1'])), o2))
         if 'err1' in out: raise ValueError('%s: the transformation raised %s on a generated program' % (k, out['err1']))
         if 'o2' not in out: raise ValueError('%s: no output of the second application (%s)' % (k, out.get('err2')))
         if k == 'assoc':
@@ -2079,6 +2239,7 @@ class C40(Property):
             if k == 'lower': return ['lc %s' % coq(M.stmts_model(out['src'])), 'lc_decls %s' % coq(ldecls_model(out['decls']))]
             if k == 'assoc': return ['M_C29.resolve %s' % coq(A.astmts_model(out['src']))]
             if k == 'dce': return ['M_C32.dce %s %s' % (coq(bool(case['simplify'])), coq(M.stmts_model(out['p0'])))]
+            if k == 'dce-select': return ['kdce %s %s' % (coq(bool(case['simplify'])), coq(kstmts_model(out['p0'])))]
             if k == 'imports': return ['prune %s %s' % (coq([s.lower() for s in case['used']]), coq([(m, list(ss)) for m, ss in out['src']]))]
             if k == 'svd': return ['svd None %s' % coq(sdecls_model(out['src'])), 'svd_shape %s' % coq(sdecls_model(out['src']))]
             if k == 'seqassoc':
@@ -2103,7 +2264,7 @@ class C40(Property):
             sub = random.Random(rng.getrandbits(64))
             r = i % 5
             if r == 0: yield {'kind': 'lower', 'unit': lower_unit(sub)}
-            elif r == 1: yield {'kind': 'dce', 'simplify': True, 'body': D.gen_dce_body(sub)}
+            elif r == 1: yield ({'kind': 'dce', 'simplify': True, 'body': D.gen_dce_body(sub)} if i % 2 else {'kind': 'dce-select', 'simplify': True, 'body': gen_select_body(sub)})
             elif r == 2:
                 g = V.Gen(sub); yield {'kind': 'vector', 'unit': g.unit(g.body())}
             elif r == 3:
